@@ -113,6 +113,7 @@ func checkC09(c *vh.Ctx) {
 				} else if (j/5)%6 == 4 {
 					o.EarlyCut = true
 				}
+				o.SunOutage = (j/4)%5 == 3
 				c09Run(c, fmt.Sprintf("c%d", k), o, corr)
 				k++
 			}
